@@ -79,7 +79,21 @@ def run(c):
     hc = [{"id": i, "kind": "hostile", "scenario": s, "reps": 2 if c.quick() else 10} for i, s in enumerate(SCEN)]
     for s in RACES:
         hc.append({"id": len(hc), "kind": "hostile", "scenario": s, "reps": 60 if c.quick() else 600})
-    ho = c.run_harness(exe, hc, timeout=1800, env=dict(os.environ, VERIF_SCRATCH=c.tmpdir("wd")))
+    henv = dict(os.environ, VERIF_SCRATCH=c.tmpdir("wd"))
+    try:
+        ho = c.run_harness(exe, hc, timeout=1800, env=henv)
+    except RuntimeError as e0:
+        # the process that runs the tracer died: find the program on whose account (one process per scenario)
+        ho = []
+        for x in hc:
+            try:
+                ho.append(c.run_harness(exe, [x], timeout=600, env=henv)[0])
+            except RuntimeError as e1:
+                c.finding_or_violation({"kind": "runner-process-dies-on-the-programs-account", "scenario": x["scenario"]},
+                                       {"case": x, "end_of_the_runner_process": str(e1)[-1500:]}, klass="rdie:" + x["scenario"])
+                ho.append({"statuses": {}, "runner_error": "", "slowest_ms": 0})
+        if not c.violations:
+            raise e0
     for x, o in zip(hc, ho):
         c.count(("hostile", x["scenario"]), klass="hostile")
         c.evaluations += x["reps"] - 1
